@@ -273,7 +273,7 @@ class C07Gen(Gen):
         ch = self.ch
         shapes = [(6, 'chain')]
         if depth > 0:
-            shapes += [(8, 'with'), (4, 'phi'), (4, 'loop'), (3, 'cond'), (3, 'nested')]
+            shapes += [(8, 'with'), (4, 'phi'), (4, 'loop'), (3, 'cond'), (3, 'nested'), (3, 'while-nested')]
         sh = ch.weighted(shapes)
         i2, i3 = ind + '    ', ind + '        '
         consts = []
@@ -337,6 +337,26 @@ class C07Gen(Gen):
             out.append(f'{j}for {i} in {hdr}:')
             out.append(f'{j2}{k} = {ch.choice(["-" + k, k + " * 1", k + " + 0", k, k + " * -1", "0 - " + k, k + " / 3", "abs(" + k + ")"])}')
             consts.append(k)
+        elif sh == 'while-nested':
+            # a while loop inside another loop whose condition is over a variable that is constant on entry the
+            # first time round only; the body zeroes it, so every entry runs at most one iteration
+            k, acc, i = fn.fresh('k'), fn.fresh('v'), fn.fresh('i')
+            k0, body = ch.weighted([(4, ('0', k + ' - ' + k)), (3, ('-1', '-1')), (3, ('-1', k + ' * 0 - 1')), (1, ('0', '-1')), (1, ('1', k + ' - ' + k))])
+            out.append(f'{ind}with {ch.choice(["fp.FP64", "fp.FP32", "fp.MPFloatContext(5, fp.RM." + self.rm() + ")", "fp.IEEEContext(4, 8, fp.RM." + self.rm() + ")"])}:')
+            out.append(f'{i2}{k} = {k0}')
+            out.append(f'{i2}{acc} = {self.expr_R(fn, 0)}')
+            out.append(f'{i2}for {i} in range({ch.int(1, 3)}):')
+            out.append(f'{i3}while {k} {ch.choice(["> 0", "> 0.5", ">= 0.5", ">= 1"])}:')      # false for k in {0, -1}
+            out.append(f'{i3}    {k} = {body}')
+            out.append(f'{i3}    {acc} = {acc} {ch.choice(["+", "-", "*"])} {self.expr_R(fn, 0)}')
+            out.append(f'{i3}{k} = {ch.choice(["2", "1", "3", "0", k + " + 2"])}')
+            u, _ = self.new_or_old(fn, 'R', 'v')
+            out.append(f'{ind}{u} = {acc}')
+            fn.env[u] = 'R'
+            fn.env[acc] = 'R'
+            fn.env[k] = 'R'
+            fn.protected.add(k)
+            self.features.add('while')
         elif sh == 'cond':
             out.append(f'{ind}with {self.small_ctx(fn)}:')
             chain(i2, 1)
